@@ -13,7 +13,8 @@
 #include <stdlib.h>
 #include <string.h>
 
-extern const void *dispatch_data_get_flattened_bytes_4libxpc(dispatch_data_t data);   // private/data_private.h (exported)
+// private/data_private.h; not exported by libdispatch.so on Linux: available only in the white-box (static) build
+extern const void *dispatch_data_get_flattened_bytes_4libxpc(dispatch_data_t data) __attribute__((weak));
 extern dispatch_data_t dispatch_data_create_f(const void *buffer, size_t size, dispatch_queue_t queue,
 		dispatch_function_t destructor);                                               // private/data_private.h (exported)
 struct first8 { uint8_t b[8]; };
@@ -146,7 +147,7 @@ int main(void) {
 			memset(H, 0, sizeof H); memset(POISON, 0, sizeof POISON); memset(dcount, 0, sizeof dcount);
 			H[0] = dispatch_data_empty; BOUND[0] = 0;
 			ndlog = dlog_seen = 0;
-			printf("ok\n");
+			printf("ok @%" PRIxPTR "\n", (uintptr_t)dispatch_data_empty);
 		} else if (w[0][0] == 'L' && n == 4) {
 			unsigned long name = strtoul(w[1], NULL, 16); int kind = atoi(w[2]);
 			uint8_t *b; size_t len = hexbytes(w[3], &b);
@@ -190,6 +191,7 @@ int main(void) {
 			}
 		} else if (w[0][0] == 'F' && n == 2) {
 			unsigned long a = strtoul(w[1], NULL, 16);
+			if (!dispatch_data_get_flattened_bytes_4libxpc) { printf("r unsupported\n"); fflush(stdout); continue; }
 			if (!POISON[a]) (void)dispatch_data_get_flattened_bytes_4libxpc(H[a]);
 			printf("r id=@%" PRIxPTR " size=%zx", (uintptr_t)H[a], dispatch_data_get_size(H[a])); print_dlog(); printf("\n");
 		} else if (w[0][0] == 'R' && n == 2) {
